@@ -72,15 +72,17 @@ Theorem all_written_bytes_eventually_acked_zw : forall n evs fa st st' L,
   (L - una_off (net_get st x)) + (L - read_off (net_get st y)) <= Z.of_nat n ->
   net_now st x + Z.of_nat n * Wz Dt Da < net_now st' x ->
   exists pre post st1, evs = pre ++ post /\ net_run st pre = Ok st1 /\ net_run st1 post = Ok st' /\
-                       una_off (net_get st1 x) = L /\ read_off (net_get st1 y) = L.
+                       una_off (net_get st1 x) = L /\ read_off (net_get st1 y) = L /\
+                       net_now st1 x <= net_now st x + Z.of_nat n * Wz Dt Da.
 Proof.
   intros n. induction n as [|n IH]; intros evs fa st st' L HDt HDa HN Ho Hsy Hb HRun Hfair Honce Hrun HF HL Hn Hlate.
   - pose proof (run_all_here _ _ _ HRun) as (HZ & _). destruct (zsafe_bounds st HN HZ) as (B1 & B2 & B3).
-    exists [], evs, st. split; [reflexivity|]. split; [reflexivity|]. split; [exact Hrun|]. lia.
+    exists [], evs, st. split; [reflexivity|]. split; [reflexivity|]. split; [exact Hrun|]. cbn [Z.of_nat]. lia.
   - pose proof (run_all_here _ _ _ HRun) as (HZ & HM). destruct (zsafe_bounds st HN HZ) as (B1 & B2 & B3).
     destruct (Z.eq_dec (una_off (net_get st x)) L) as [Eu | Nu];
       [destruct (Z.eq_dec (read_off (net_get st y)) L) as [Er | Nr]|].
-    { exists [], evs, st. split; [reflexivity|]. split; [reflexivity|]. split; [exact Hrun|]. split; assumption. }
+    { exists [], evs, st. split; [reflexivity|]. split; [reflexivity|]. split; [exact Hrun|]. split; [assumption|]. split; [assumption|].
+      pose proof max_rto_us_pos as Hmr. assert (HW : 0 <= Wz Dt Da) by (unfold Wz; lia). nia. }
     all: pose proof max_rto_us_pos as Hmr; assert (HW : 0 <= Wz Dt Da) by (unfold Wz; lia);
       assert (Hlate1 : net_now st x + Wz Dt Da < net_now st' x) by (rewrite Nat2Z.inj_succ in Hlate; nia).
     all: assert (Hrnd : exists pre post fa1 st1,
@@ -114,9 +116,10 @@ Proof.
       by (rewrite Nat2Z.inj_succ in Hn; destruct HG as [X | X]; lia).
     all: assert (Hlate2 : net_now st1 x + Z.of_nat n * Wz Dt Da < net_now st' x) by (rewrite Nat2Z.inj_succ in Hlate; nia).
     all: destruct (IH post fa1 st1 st' L HDt HDa HN1 Hoo1 Hsy1 Hb1 HR1 Hf1 Ho1 Hp2 HFb HL1 Hn1 Hlate2)
-      as (pre2 & post2 & st2 & -> & Hq1 & Hq2 & HU);
+      as (pre2 & post2 & st2 & -> & Hq1 & Hq2 & HU1 & HU2 & HU3);
       exists (pre ++ pre2), post2, st2; (split; [rewrite app_assoc; reflexivity|]);
-      (split; [eapply net_run_app; eassumption|]); split; assumption.
+      (split; [eapply net_run_app; eassumption|]); (split; [assumption|]); (split; [assumption|]); (split; [assumption|]);
+      rewrite Nat2Z.inj_succ; nia.
 Qed.
 
 End Acked.
